@@ -15,7 +15,7 @@ def case_class(spec, cap=None):
             topo += "^m"
         s = "s+" if float(e.get("s", 1)) > 0 else "s-"
         f = {1.0: "f+", -1.0: "f-", 0.0: "f0"}[float(e.get("fs", 1.0))]
-        return "%s|%s|%s|%s%s|g%d" % (
+        c = "%s|%s|%s|%s%s|g%d" % (
             topo,
             "orth" if o.get("orthogonal", True) else "nonorth",
             o.get("psi_interpolation_method", "spline"),
@@ -23,6 +23,9 @@ def case_class(spec, cap=None):
             f,
             int(o.get("y_boundary_guards", 0)),
         )
+        if int(spec.get("np") or 1) > 1:
+            c += "|np%d" % int(spec["np"])  # built by worker processes
+        return c
     if kind == "circ":
         return "circ|%s|g%d" % ("orth" if o.get("orthogonal", True) else "nonorth", int(o.get("y_boundary_guards", 0)))
     if kind == "torpex":
